@@ -57,6 +57,9 @@ fn placements(deep: bool) -> Vec<(&'static str, BBox)> {
     v.push(("bigger-east", BBox::xywh(80., 20., 30., 60.)));
     v.push(("offset-east-partial", BBox::xywh(75., 47., 10., 6.)));
     v.push(("offset-south-partial", BBox::xywh(57., 70., 10., 6.)));
+    // an edge mid-point of B exactly in line with one of A's (A@r = 60,45; A@b = 50,50)
+    v.push(("aligned-right-below", BBox::xywh(55., 70., 10., 6.)));
+    v.push(("aligned-bottom-east", BBox::xywh(80., 47., 10., 6.)));
     v
 }
 
@@ -287,19 +290,25 @@ fn check(c: &Case, places: &[(&'static str, BBox)]) -> CaseResult {
                                         }
                                     };
                                     let want = |e: char| if e == 't' || e == 'b' { 'v' } else { 'h' };
+                                    // Open finding (KNOWN_FINDINGS.txt): a route one of whose corners coincides with an endpoint
+                                    // (the two locations are in line, or the boxes touch / overlap) has a repeated point - a
+                                    // zero-length stub - and then runs along the edge. Only routes with a repeated point belong to it.
+                                    let degenerate_l = pts.windows(2).any(|w| seg_dir(w[0], w[1]).is_none());
                                     // the first / last segment as drawn; a zero-length leg (the two boxes happen to
                                     // line up) has no direction and is accepted
-                                    let first = seg_dir(pts[0], pts[1]);
-                                    let last = seg_dir(pts[pts.len() - 2], pts[pts.len() - 1]);
+                                    // (what is DRAWN: a zero-length leg - repeated points - has no direction, the
+                                    // next one is what leaves the edge)
+                                    let first = pts.windows(2).find_map(|w| seg_dir(w[0], w[1]));
+                                    let last = pts.windows(2).rev().find_map(|w| seg_dir(w[0], w[1]));
                                     if pts.len() > 2 || first.is_some() {
                                         if let Some(f) = first {
                                             if f != want(e1) && pts.len() > 2 {
-                                                mk("corner-leaves-along-the-edge", format!("{doc}\nstart is on edge '{e1}' but the first segment is {}: {pts:?}", if f == 'v' { "vertical" } else { "horizontal" }));
+                                                mk(if degenerate_l { "corner-route-with-zero-length-stub" } else { "corner-leaves-along-the-edge" }, format!("{doc}\nstart is on edge '{e1}' but the first segment is {}: {pts:?}", if f == 'v' { "vertical" } else { "horizontal" }));
                                             }
                                         }
                                         if let Some(l) = last {
                                             if l != want(e2) && pts.len() > 2 {
-                                                mk("corner-enters-along-the-edge", format!("{doc}\nend is on edge '{e2}' but the last segment is {}: {pts:?}", if l == 'v' { "vertical" } else { "horizontal" }));
+                                                mk(if degenerate_l { "corner-route-with-zero-length-stub" } else { "corner-enters-along-the-edge" }, format!("{doc}\nend is on edge '{e2}' but the last segment is {}: {pts:?}", if l == 'v' { "vertical" } else { "horizontal" }));
                                             }
                                         }
                                     }
@@ -358,7 +367,7 @@ pub fn run(tier: Tier) -> i32 {
             }
         }
     }
-    rep.set("rule", json!("First endpoint A (rect, ellipse, reversed line, group; box 40,40-60,50) and a second rect B in 26 placements (8 sectors x near/far, overlapping, touching right/below, identical, nested, bigger, partially offset east/south) x endpoint specifications {#el, #el@loc for 9 locations and 9 edge offsets (abs, negative, percent), two literal points} for start and end x kind {line, line edge-type h, line edge-type v, polyline, polyline corner-offset 2 / 25% / 6}. Invariants: named location => endpoint exactly that point of the box; unnamed => endpoint is a candidate location (edge mid-points, plus corners for straight lines) and no candidate pair is strictly closer; literal verbatim; h/v => axis-parallel, on facing edges at minimal gap, through the middle of the overlap when the boxes overlap on the other axis; corner routes between two edges => every segment axis-parallel, first/last non-degenerate segment perpendicular to its edge; start/end/edge-type/corner-offset absent. Non-trivial = Ok with observable geometry and all invariants satisfied."));
+    rep.set("rule", json!("First endpoint A (rect, ellipse, reversed line, group; box 40,40-60,50) and a second rect B in 26 placements (8 sectors x near/far, overlapping, touching right/below, identical, nested, bigger, partially offset east/south) x endpoint specifications {#el, #el@loc for 9 locations and 9 edge offsets (abs, negative, percent), two literal points} for start and end x kind {line, line edge-type h, line edge-type v, polyline, polyline corner-offset 2 / 25% / 6}. Invariants: named location => endpoint exactly that point of the box; unnamed => endpoint is a candidate location (edge mid-points, plus corners for straight lines) and no candidate pair is strictly closer; literal verbatim; h/v => axis-parallel, on facing edges at minimal gap, through the middle of the overlap when the boxes overlap on the other axis; corner routes between two edges => every segment axis-parallel, first/last non-degenerate segment perpendicular to its edge; start/end/edge-type/corner-offset absent. Non-trivial = Ok with observable geometry and all invariants satisfied. Also: 2 placements with an edge mid-point of B exactly in line with one of A's (degenerate L routes), the first / last DRAWN segment (zero-length stubs skipped) judged for perpendicularity; explicit geometry (x1, y2, points, xy1, xy2, x, cxy) written on 4 connector kinds must not change the connector."));
     rep.set("also", json!("Also: a <use> as the first endpoint element; for polylines one of whose ends has no edge (literal point, corner, centre) the segments must still be axis-parallel."));
     let st = run_space(cases.len(), |i| check(&cases[i], &places));
     rep.sample(json!({"doc": document(&cases[cases.len() / 2], &places)}));
@@ -380,6 +389,32 @@ pub fn run(tier: Tier) -> i32 {
         CaseResult { case_hash: hash64(&bad[i]), nontrivial: out.is_err(), outcome_hash: hash64(&format!("{out:?}")), executions: 1, violation: viol }
     });
     rep.absorb("unknown-refs", st);
+    // geometry written on the connector as well does not override what its ends determine
+    let mut extra: Vec<(String, String, String)> = Vec::new();
+    for (kn, kind) in [("line", "<line id=\"k\" start=\"#a\" end=\"#b\"%%/>"), ("line-h", "<line id=\"k\" start=\"#a\" end=\"#b\" edge-type=\"h\"%%/>"), ("polyline", "<polyline id=\"k\" start=\"#a@r\" end=\"#b@l\"%%/>"), ("line-literal", "<line id=\"k\" start=\"3 4\" end=\"#b\"%%/>")] {
+        for (an, attr) in [("x1", " x1=\"99\""), ("y2", " y2=\"-5\""), ("points", " points=\"1 1 2 2\""), ("xy1", " xy1=\"77 88\""), ("xy2", " xy2=\"7 8\""), ("x", " x=\"3\""), ("cxy", " cxy=\"1 2\"")] {
+            let wrap = |k: &str| format!("<svg><rect id=\"a\" wh=\"10\"/><rect id=\"b\" xy=\"30 4\" wh=\"10\"/>{k}</svg>");
+            extra.push((format!("{kn}/{an}"), wrap(&kind.replace("%%", attr)), wrap(&kind.replace("%%", ""))));
+        }
+    }
+    let st = run_space(extra.len(), |i| {
+        let (name, with, without) = &extra[i];
+        let (ow, oo) = (run_str(with, &Cfg::plain()), run_str(without, &Cfg::plain()));
+        let el = |o: &Outcome| match o {
+            Outcome::Ok(b) => xmlref::parse_tree(b, Mode::Document).ok().and_then(|t| xmlref::root(&t).and_then(|r| r.find_id("k").map(|e| (e.name.clone(), { let mut a = e.attrs.clone(); a.sort(); a })))),
+            _ => None,
+        };
+        let (a, b) = (el(&ow), el(&oo));
+        let bad = a.is_none() || a != b;
+        CaseResult {
+            case_hash: hash64(with),
+            nontrivial: !bad,
+            outcome_hash: hash64(&format!("{ow:?}")),
+            executions: 2,
+            violation: bad.then(|| Violation { clause: "explicit-geometry-overrides-the-ends".into(), signature: format!("C13/explicit-geometry-overrides-the-ends/{name}"), case: json!({"input": with}), detail: format!("{with}\nconnector with the extra attribute: {a:?}\nwithout it: {b:?}") }),
+        }
+    });
+    rep.absorb("explicit-geometry", st);
     rep.assume("ties between equidistant candidate locations are free; corner assertions apply when both ends lie on edges (named edge or automatic); h/v assertions apply to element-to-element connectors");
     rep.finish()
 }
